@@ -73,6 +73,7 @@ def main():
             t0 = time.time()
             env = dict(os.environ)
             env['VERIF_REPO'] = wt
+            env['VERIF_OUT'] = wt + '-out'      # evidence and replays of runs against the scratch copy stay out of /verif
             r = subprocess.run(['./check', c, tier], cwd=VERIF, env=env, stdout=subprocess.PIPE, stderr=subprocess.STDOUT, text=True)
             keys = re.findall(r'key=(\S+)', r.stdout)
             res['checks'][c] = {'rc': r.returncode, 'keys': keys[:6], 'wall_s': round(time.time() - t0, 1)}
@@ -81,8 +82,7 @@ def main():
     finally:
         sh('git -C /repo worktree remove --force %s' % wt)
         shutil.rmtree(wt, ignore_errors=True)
-        # evidence files were rewritten by runs against the scratch copy: restore the committed ones
-        sh('git -C %s checkout -- evidence' % VERIF)
+        shutil.rmtree(wt + '-out', ignore_errors=True)
     return 0
 
 
